@@ -103,6 +103,23 @@ def w_group(prop, gid, tier, seed, q):
         q.put({"id": gid, "kind": "?", "obligations": [{"id": gid + ".<engine>", "status": "unknown", "why": traceback.format_exc()[-1200:]}], "wall_s": 0})
 
 
+def _in_own_group(target, *args):
+    """a worker is the leader of its own process group, so that the pool processes it starts die with it on a time-out"""
+    try:
+        os.setpgid(0, 0)
+    except OSError:
+        pass
+    target(*args)
+
+
+def _kill_group(p):
+    import signal
+    try:
+        os.killpg(p.pid, signal.SIGKILL)
+    except (ProcessLookupError, PermissionError, OSError):
+        p.kill()
+
+
 def run_tasks(tasks, nproc, timeout_s):
     """tasks: list of (key, target, args).  Each runs in its own process (killed on timeout)."""
     ctx = mp.get_context("fork")
@@ -113,7 +130,7 @@ def run_tasks(tasks, nproc, timeout_s):
         while pending and len(running) < nproc:
             key, target, args = pending.pop(0)
             q = ctx.Queue()
-            p = ctx.Process(target=target, args=args + (q,))
+            p = ctx.Process(target=_in_own_group, args=(target,) + args + (q,))
             p.start()
             running.append((key, p, q, time.time()))
         time.sleep(0.05)
@@ -135,7 +152,7 @@ def run_tasks(tasks, nproc, timeout_s):
                 except Exception:  # noqa
                     results[key] = {"id": key[1], "status": "crash", "detail": f"worker died (exit {p.exitcode})", "obligations": {}, "paths": {}}
             elif time.time() - t0 > timeout_s:
-                p.kill()
+                _kill_group(p)
                 p.join()
                 results[key] = {"id": key[1], "status": "timeout", "detail": f"killed after {timeout_s}s", "obligations": {}, "paths": {}}
             else:
